@@ -80,8 +80,15 @@ def transparency(obl, unit, s, oc, fr, props=('C04',)):
         obl.append(Obl('%s/%s/exit/must_return_or_raise' % (P, unit), P, s, z3.BoolVal(False), oc))
 
 
-def finish(ex, paths, obl, info, extra_units=(), fr=None):
-    mv = {}
+def params_mv(st):
+    """model variables for the active recording parameters of the entry state (recording mode), for the native replay"""
+    from specs.tr_base import PARAM_FIELDS
+    p = st.g.get('old', {}).get('params')
+    return {} if p is None else {'params.' + fl: st.rd(p, fl) for fl, _ in PARAM_FIELDS}
+
+
+def finish(ex, paths, obl, info, extra_units=(), fr=None, extra_mv=None):
+    mv = dict(extra_mv or {})
     for k, v in (fr or {}).items():
         if k in ('self', 'args', 'kwargs', 'func'):
             continue
@@ -252,6 +259,10 @@ def w_in_playback(props=None, case=None):
         if len(b) == 1:
             obl.append(Obl('C02/%s/missing/run_original_only_if_opted_in' % U, 'C02', s, run_orig, oc))
             transparency(obl, U + '.run_original', s, oc, fr, props=('C02',))
+            # the original runs as replayed code: its own intercepted inputs / outputs are still served from the recording, so it must NOT
+            # run inside the interception context (which would make every nested interception pass through to the live code)
+            if b[0].get('in_interception') is not None:
+                obl.append(Obl('C02/%s/missing/original_runs_outside_the_interception_context' % U, ('C02', 'C01'), s, z3.Not(b[0]['in_interception']), oc))
         else:
             obl.append(Obl('C02/%s/missing/body_not_called_more_than_once' % U, 'C02', s, z3.BoolVal(len(b) == 0), oc))
             obl.append(Obl('C02/%s/missing/not_run_original_implies_not_opted_in' % U, 'C02', s, z3.Not(run_orig), oc))
@@ -271,10 +282,15 @@ def w_in_playback(props=None, case=None):
 def w_in_recording(props=None, case=None):
     obl = []
     repo, spec, ex, st, selfv, fr, node, info = w_in_state('recording', case, obl, props)
+    pmv = params_mv(st)
     paths = norm(ex.block(node.body, st)); U = 'W_in.recording'
     for s, oc in paths:
         transparency(obl, U, s, oc, fr)
         obl.append(Obl('C09/%s/flag_restored' % U, ('C09', 'C05', 'C02', 'C01', 'C03'), s, flag_restored(s, selfv), oc))
+        for b_ in body_calls(s):
+            # while recording, the intercepted body runs INSIDE the interception context: what it calls is part of this input, not recorded again
+            if b_.get('in_interception') is not None:
+                obl.append(Obl('C01/%s/record/body_runs_inside_the_interception_context' % U, ('C01', 'C03'), s, b_['in_interception'], oc))
         writes = [ev for ev in s.events if ev[0] == 'setitem']
         written = z3.Or(*[ev[1] == s.g['old']['active'] for ev in writes]) if writes else z3.BoolVal(False)
         discarded = s.rd(selfv, '_active_recording') == NONE
@@ -314,7 +330,7 @@ def w_in_recording(props=None, case=None):
             al = Val.s(FA(fr['alias'], res[0]['outcome'][1])) if res else fr['alias']
             key = Val.s(KF(al, fr['capture_args'], fr['static_function'], old['seq'][Val.addr(fr['args'])], old['ddom'][ka], old['dmap'][ka]))
             obl.append(Obl('C01/%s/record/key_is_K_of_alias_and_arguments' % U, 'C01', s, ev[2] == key, oc))
-    return finish(ex, paths, obl, info, fr=fr)
+    return finish(ex, paths, obl, info, fr=fr, extra_mv=pmv)
 
 
 # ------------------------------------------------------------------ W_out (C02, C03, C04, C05, C09)
@@ -331,6 +347,7 @@ def w_out(mode='playback', props=None, case=None):
     assert st.sat(), 'vacuous precondition'
     obl = []; U = 'W_out.' + mode
     apply_case(st, fr, case, 'w_out', obl, U, (props or ['C03'])[0])
+    pmv = params_mv(st)
     paths = norm(ex.block(node.body, st))
     old = st.g['old']; ca = Val.addr(old['counter'])
     n_ = z3.If(old['ddom'][ca][fr['alias']], Val.iv(old['dmap'][ca][fr['alias']]), 0) + 1        # ordinal of this call: counter at entry + 1
@@ -414,6 +431,48 @@ def w_out(mode='playback', props=None, case=None):
                         cl = z3.And(s.dhas(env, S('exception')), s.dget(env, S('exception')) == out[1])
                     obl.append(Obl('C01/%s/record/result_envelope' % U, 'C01', s, cl, oc))
             obl.append(Obl('C05/%s/at_most_two_entries_written' % U, 'C05', s, z3.BoolVal(len(writes) <= 2), oc))
+    return finish(ex, paths, obl, info, fr=fr, extra_mv=pmv)
+
+
+# ------------------------------------------------------------------ W_in / W_out when NOT intercepting (C04, C09, C03)
+def w_passthrough(unit='out', mode='idle', props=None):
+    """the input / output wrapper when the recorder is idle (no recording, no replay) or when the call is nested inside another interception
+    (thread flag set): it is exactly func(*args, **kwargs) -- nothing written, no hook called, and the recorder's own state (per-alias
+    counter, playback outputs, flags) left exactly as it was, so that calls made outside a run cannot leak into the next run"""
+    nested = mode == 'nested'
+    free = W_IN_FREE if unit == 'in' else W_OUT_FREE
+    repo, spec, ex, st, selfv, fr, node, info = setup(W_IN if unit == 'in' else W_OUT, 'recording' if nested else 'any_idle', free)
+    spec.declare_role(st, fr['func'], 'UserBody', 'func')
+    st.assume(Val.is_b(fr['static_function'])); st.assume(Val.is_s(fr['alias']))
+    spec.declare_handler(st, fr['data_handler'], 'InputInterceptionDataHandler' if unit == 'in' else 'OutputInterceptionDataHandler')
+    if unit == 'in':
+        for nm in ('alias_params_resolver', 'fallback_aliases', 'value_when_missing'):
+            spec.declare_role(st, fr[nm], 'UserHook', nm, definite=False)
+    tl = st.rd(selfv, '_thread_locals')
+    if nested:
+        st.wr(tl, 'tlhas_currently_in_interception', B(True)); st.wr(tl, 'tl_currently_in_interception', B(True))
+        # what the (nested) body itself may do to the recorder -- discard, force -- is the enclosing interception's business (rely of the
+        # recording units); this unit is about the wrapper's OWN effects, so the body is taken to leave the recorder alone
+        spec.quiet_rely = True
+    assert st.sat(), 'vacuous precondition'
+    old = st.g['old']; ca = Val.addr(old['counter'])
+    h0 = dict(st.heap)
+    paths = norm(ex.block(node.body, st)); obl = []; U = 'W_%s.%s' % (unit, 'nested' if nested else 'idle')
+    for s, oc in paths:
+        transparency(obl, U, s, oc, fr)
+        obl.append(Obl('C04/%s/no_cassette_events' % U, ('C04', 'C09'), s, no_cassette_events(s), oc))
+        obl.append(Obl('C04/%s/no_hooks_called' % U, ('C04', 'C09'), s, z3.BoolVal(not hooks(s)), oc))
+        cnt = s.rd(selfv, '_invoke_counter')
+        same_fields = [s.rd(selfv, f) == z3.Select(h0[f], Val.addr(selfv)) for f in ('_active_recording', '_active_recording_parameters', '_playback_recording', '_force_sample',
+                                                                                      '_invoke_counter', '_playback_outputs', 'recording_enabled') if f in h0]
+        obl.append(Obl('C09/%s/recorder_state_left_exactly_as_it_was' % U, ('C09', 'C03', 'C04'), s,
+                       z3.And(cnt == old['counter'], s.g['ddom'][ca] == old['ddom'][ca], s.g['dmap'][ca] == old['dmap'][ca],
+                              s.seq(s.rd(selfv, '_playback_outputs')) == old['pbout'], *same_fields), oc))
+        if nested:
+            obl.append(Obl('C09/%s/interception_flag_still_set_for_the_enclosing_interception' % U, ('C09', 'C04'), s,
+                           z3.And(s.rd(tl, 'tlhas_currently_in_interception') == B(True), s.rd(tl, 'tl_currently_in_interception') == B(True)), oc))
+        else:
+            obl.append(Obl('C09/%s/flag_restored' % U, ('C09', 'C04'), s, flag_restored(s, selfv), oc))
     return finish(ex, paths, obl, info, fr=fr)
 
 
@@ -527,6 +586,12 @@ def w_op_recording(props=None, case=None):
                                z3.Implies(z3.And(is_exc(out[1]), tre), z3.And(m[key('EXCEPTION_IN_OPERATION')] == B(True), m[key('INCOMPLETE_RECORDING')] == B(False))), oc,
                                finding='C18-tape-recorder-exception'))
                 obl.append(Obl('C18/%s/base/incomplete' % U, 'C18', s, z3.Implies(z3.Not(is_exc(out[1])), m[key('INCOMPLETE_RECORDING')] == B(True)), oc))
+            # "the user's extracted metadata, or none of it": the saved metadata holds the framework's keys and what THIS run's extractor
+            # returned -- nothing left over from an earlier run of the same decorated operation
+            k_ = fresh('any_metadata_key'); fwk = [key(n_) for n_ in ('DURATION', 'RECORDED_AT', 'OPERATION_CLASS', 'EXCEPTION_IN_OPERATION', 'INCOMPLETE_RECORDING')]
+            pa = s.g.get('post_added')
+            obl.append(Obl('C18/%s/no_key_beyond_the_frameworks_and_this_runs_extracted_metadata' % U, 'C18', s,
+                           z3.Implies(z3.And(*([k_ != x for x in fwk] + ([z3.Not(pa[k_])] if pa is not None else []))), z3.Not(d_[k_])), oc))
             obl.append(Obl('C18/%s/duration_nonnegative' % U, 'C18', s, z3.And(is_num(m[key('DURATION')]), num(m[key('DURATION')]) >= 0), oc))
             obl.append(Obl('C18/%s/recorded_at_present' % U, 'C18', s, z3.And(d_[key('RECORDED_AT')], Val.is_s(m[key('RECORDED_AT')])), oc))
             a0 = s.g['old']['seq'][Val.addr(fr['args'])][0]
